@@ -558,18 +558,21 @@ theorem C12_normpath_dotdot (p x q : Str) (hp : HasNonSlash p) (hx : Normal x) :
     simp [List.foldl_append, step_push_pop _ _ hx]
 
 
-/-- **collect (plain `Path`).** What collection stores for a `Path` dependency/product is in normal form. -/
-theorem C12_collect_plain_normal (base p : Str) :
-    normpath (collectPath true base p) = collectPath true base p := by
-  simp only [collectPath, if_true]; exact normpath_idem _
+/-- **collect, normal form.** What collection stores as the path of a dependency / product — for a plain
+`Path` and for `PathNode` / `PickleNode` / `DirectoryNode` instances, relative or absolute — is in normal form. -/
+theorem C12_collect_normal (plain : Bool) (base p : Str) :
+    normpath (collectPath plain base p) = collectPath plain base p := by
+  cases plain <;> cases h : isAbs p <;>
+    simp [collectPath, collectNormalises, h, Generated.collectPlainRelNorm, Generated.collectPlainAbsNorm,
+      Generated.collectNodeRelNorm, Generated.collectNodeAbsNorm, normpath_idem]
 
-/-- **collect (plain `Path`), spellings.** Relative spellings `p/./q`, `p//q`, `p/x/../q` of `p/q`
-(relative to the task's directory `base`) are collected as the same path. -/
-theorem C12_collect_plain_spellings (base p q x : Str) (hb : base.getLast? ≠ some '/')
+/-- **collect, spellings.** Relative spellings `p/./q`, `p//q`, `p/x/../q` of `p/q` (relative to the
+task's directory `base`) are collected as the same path, for plain paths and node instances alike. -/
+theorem C12_collect_spellings (plain : Bool) (base p q x : Str) (hb : base.getLast? ≠ some '/')
     (hp : HasNonSlash p) (hrel : isAbs p = false) (hx : Normal x) :
-    collectPath true base (p ++ '/' :: '.' :: '/' :: q) = collectPath true base (p ++ '/' :: q) ∧
-    collectPath true base (p ++ '/' :: '/' :: q) = collectPath true base (p ++ '/' :: q) ∧
-    collectPath true base (p ++ '/' :: (x ++ '/' :: '.' :: '.' :: '/' :: q)) = collectPath true base (p ++ '/' :: q) := by
+    collectPath plain base (p ++ '/' :: '.' :: '/' :: q) = collectPath plain base (p ++ '/' :: q) ∧
+    collectPath plain base (p ++ '/' :: '/' :: q) = collectPath plain base (p ++ '/' :: q) ∧
+    collectPath plain base (p ++ '/' :: (x ++ '/' :: '.' :: '.' :: '/' :: q)) = collectPath plain base (p ++ '/' :: q) := by
   have hrel' : ∀ r, isAbs (p ++ r) = false := by
     intro r
     cases p with
@@ -578,27 +581,29 @@ theorem C12_collect_plain_spellings (base p q x : Str) (hb : base.getLast? ≠ s
   have hbp : HasNonSlash (base ++ '/' :: p) := by
     obtain ⟨c, hc, hne⟩ := hp
     exact ⟨c, by simp [hc], hne⟩
-  simp only [collectPath, if_true, hrel', joinPath, if_neg hb, Bool.false_eq_true, if_false]
   have e : ∀ r, base ++ '/' :: (p ++ r) = (base ++ '/' :: p) ++ r := by intro r; simp
-  refine ⟨?_, ?_, ?_⟩
-  · rw [e, e]; exact C12_normpath_dot _ q hbp
-  · rw [e, e]; exact C12_normpath_dslash _ q hbp
-  · rw [e, e]; exact C12_normpath_dotdot _ x q hbp hx
+  cases plain <;>
+    simp only [collectPath, collectNormalises, hrel', joinPath, if_neg hb, Bool.false_eq_true, if_false,
+      Generated.collectPlainRelNorm, Generated.collectNodeRelNorm, if_true] <;>
+    exact ⟨by rw [e, e]; exact C12_normpath_dot _ q hbp, by rw [e, e]; exact C12_normpath_dslash _ q hbp,
+           by rw [e, e]; exact C12_normpath_dotdot _ x q hbp hx⟩
 
-/-- **collect (node instances), full** — node instances (`PathNode`, `PickleNode`, `DirectoryNode.root_dir`)
-are normalised like plain paths.  FALSE of the current code (F17). -/
-def C12_collect_node_full : Prop := ∀ base p : Str, collectPath false base p = collectPath true base p
+/-- **collect, node instances = plain paths** (F17 repaired in c8f94b3; was false before): a `PathNode`,
+`PickleNode` or `DirectoryNode` instance is collected under exactly the path a plain `Path` with the same
+spelling is collected under — so two declarations of one file are one DAG node however they are written. -/
+theorem C12_collect_node_full (base p : Str) : collectPath false base p = collectPath true base p := by
+  cases h : isAbs p <;>
+    simp [collectPath, collectNormalises, h, Generated.collectPlainRelNorm, Generated.collectPlainAbsNorm,
+      Generated.collectNodeRelNorm, Generated.collectNodeAbsNorm]
 
-/-- **F17.** An absolute, dotted path of a node instance is kept as spelled. -/
-theorem C12_collect_node_full_false : ¬ C12_collect_node_full := by
-  intro h
-  exact absurd (h "/b".toList "/a/./c".toList) (by decide)
-
-/-- **collect (node instances), partial.** Relative paths of node instances are normalised exactly
-like plain paths. -/
-theorem C12_collect_node_rel (base p : Str) (hrel : isAbs p = false) :
-    collectPath false base p = collectPath true base p := by
-  simp [collectPath, hrel]
+/-- **collect, same normalised file ⇔ same collected path.** Two declarations (any mix of plain / node
+instance, relative / absolute) are collected under one path iff their absolute forms normalise alike. -/
+theorem C12_collect_iff (pl₁ pl₂ : Bool) (base p₁ p₂ : Str) :
+    collectPath pl₁ base p₁ = collectPath pl₂ base p₂ ↔
+      normpath (if isAbs p₁ then p₁ else joinPath base p₁) = normpath (if isAbs p₂ then p₂ else joinPath base p₂) := by
+  cases pl₁ <;> cases pl₂ <;> cases h₁ : isAbs p₁ <;> cases h₂ : isAbs p₂ <;>
+    simp [collectPath, collectNormalises, h₁, h₂, Generated.collectPlainRelNorm, Generated.collectPlainAbsNorm,
+      Generated.collectNodeRelNorm, Generated.collectNodeAbsNorm]
 
 /-- non-vacuity of the spelling theorems: `/r/a` has a non-slash character, `x` is an ordinary component,
 and the four spellings of `/r/a/b` normalise to it. -/
